@@ -1,6 +1,7 @@
 import Rbp.Proofs.OpReturn
 import Rbp.Proofs.RunSpec
 import Rbp.Proofs.Lossy
+import Rbp.Proofs.Utf8Spec
 /-!
 # C16 — opreturn prints exactly the non-empty UTF-8 payloads, in chain order
 -/
@@ -15,10 +16,11 @@ theorem single_push_fork (ver : UInt8) (f : T.Form) (p : Bytes) (hwf : (T.Tok.pu
   fork_single_push ver f p hwf hne
 
 /-- Bitcoin / testnet3: the same script is typed OpReturn with exactly the pushed payload when it is valid UTF-8
-    (core Lean's `ByteArray.validateUTF8`), and with the empty payload — nothing is printed — otherwise -/
+    (`L.valid`: Unicode's Table 3-7, proved below to accept exactly the encodings of sequences of Unicode scalar values), and
+    with the empty payload — nothing is printed — otherwise -/
 theorem single_push_btc (testnet : Bool) (f : T.Form) (p : Bytes) (hwf : (T.Tok.push f p).WF) :
     evalBtc testnet (singlePush f p) =
-      ⟨.opReturn (if (ByteArray.mk p.toArray).validateUTF8 then p else []), none⟩ :=
+      ⟨.opReturn (if L.valid p then p else []), none⟩ :=
   btc_single_push testnet f p hwf
 
 /-- the callback prints a line for an output iff its script is typed OpReturn with a non-empty payload; every other
@@ -56,10 +58,22 @@ theorem opreturn_run_spec (o : Run.Opts) (key : Option W.Bytes) (kvs : List (W.B
   · rw [ho]; simp only [Run.callbackOut, hcb]
 
 /-- fork coins print well-formed UTF-8 payloads exactly: on every string accepted by Unicode's Table 3-7 (`L.valid`), the
-    lossy decoder is the identity — U+FFFD appears only where the bytes are ill-formed.  (That `L.valid` agrees with the
-    validator used on the Bitcoin path, core Lean's `validateUTF8`, and with Rust's `from_utf8`, is checked by the `utf8`
-    family of the correspondence on adversarial strings.) -/
+    lossy decoder is the identity — U+FFFD appears only where the bytes are ill-formed.  (That `L.valid` agrees with Rust's
+    `from_utf8` — and with core Lean's `validateUTF8`, an independent implementation — is checked by the `utf8` family of the
+    correspondence on adversarial strings.) -/
 theorem lossy_valid_id (p : Bytes) (h : L.valid p = true) : L.lossy p = p := L.lossy_of_valid p.length p rfl h
+
+/-- **what `valid UTF-8` means.**  The recogniser used on the Bitcoin path accepts a byte string iff it is the concatenation
+    of the UTF-8 encodings (1 to 4 bytes, RFC 3629) of Unicode scalar values — code points below 0x110000 outside the surrogate
+    range 0xD800..0xDFFF; overlong forms, surrogates and values above 0x10FFFF are thereby excluded -/
+theorem valid_iff_scalar_encoding (p : Bytes) :
+    L.valid p = true ↔ ∃ cs : List Nat, (∀ c ∈ cs, L.scalar c) ∧ p = cs.flatMap L.enc :=
+  L.valid_iff_encoding p
+
+/-- whatever the payload, what a fork coin prints is well-formed UTF-8, and it is the payload itself exactly when the payload
+    is well-formed -/
+theorem lossy_output_valid (p : Bytes) : L.valid (L.lossy p) = true ∧ (L.lossy p = p ↔ L.valid p = true) :=
+  ⟨L.lossy_valid p.length p rfl, fun h => by rw [← h]; exact L.lossy_valid p.length p rfl, fun h => L.lossy_of_valid p.length p rfl h⟩
 
 /-- non-vacuity: "é€😀" (2-, 3- and 4-byte sequences) is accepted; a lone continuation byte and an overlong "/" are not -/
 example : L.valid [0xC3, 0xA9, 0xE2, 0x82, 0xAC, 0xF0, 0x9F, 0x98, 0x80] = true ∧ L.valid [0x80] = false ∧ L.valid [0xC0, 0xAF] = false := by
